@@ -244,6 +244,11 @@ def run_terms(ctx):
             ctx.count('history edit before the compared build', e_)
         progs.append(pr)
         extra += 1
+    # in every run: lists of look-alike terms (same class / size / lam / penalty names, different matrices)
+    for j in range(1 if ctx.tier == 'quick' else 6):
+        for pr in twin_programs(ctx.subrng('twins', j), pygam):
+            ctx.count('history edit before the compared build', 'no history (look-alike terms in one list)')
+            progs.append(pr)
     ops, meta = [], []
     for pr in progs:
         toks = ' '.join(pr.tokens)
@@ -317,6 +322,35 @@ def run_terms(ctx):
             if M.shape != B.shape or np.abs(M - B).max() > 1e-9 * max(1.0, np.abs(M).max()):
                 if not bad:
                     ctx.disagree(st_t, dict(tokens=sig['tokens'], term=ti), B.tolist(), M.tolist(), 'term penalty differs')
+
+
+def twin_programs(rng, pygam):
+    """term lists that contain look-alike terms: same class, number of coefficients, lam and penalty *names*, yet different
+    penalty matrices (what 'auto' means depends on basis and dtype; a tensor block depends on the order of its marginals)"""
+    from pygam.terms import SplineTerm, LinearTerm, TensorTerm, TermList, Intercept
+    X = np.array([[rng.randint(0, 64) / 64.0 for _ in range(5)] for _ in range(12)])
+    X[0], X[1] = 0.0, 1.0
+    L = rng.choice([0.6, 2.5, 10.0])
+    n = rng.choice([5, 6, 8])
+    a, b = rng.choice([(3, 5), (4, 6), (2, 4)])
+    lists = [
+        [SplineTerm(0, n_splines=n, basis='cp', lam=L), SplineTerm(1, n_splines=n, basis='ps', lam=L)],
+        [SplineTerm(1, n_splines=n, basis='ps', lam=L), SplineTerm(0, n_splines=n, basis='cp', lam=L), SplineTerm(2, n_splines=n, lam=L)],
+        [SplineTerm(0, n_splines=n, dtype='categorical', lam=L), SplineTerm(1, n_splines=n, lam=L)],
+        [TensorTerm(SplineTerm(0, n_splines=a), SplineTerm(1, n_splines=b)), TensorTerm(SplineTerm(2, n_splines=b), SplineTerm(3, n_splines=a))],
+        [TensorTerm(SplineTerm(0, n_splines=a, lam=L), LinearTerm(1, lam=L)), TensorTerm(LinearTerm(2, lam=L), SplineTerm(3, n_splines=a, lam=L))],
+        [TensorTerm(SplineTerm(0, n_splines=a, basis='cp', spline_order=1), SplineTerm(1, n_splines=b)),
+         TensorTerm(SplineTerm(2, n_splines=a, spline_order=1), SplineTerm(3, n_splines=b))],
+    ]
+    out = []
+    for terms in lists:
+        tl = TermList(*terms)
+        if rng.random() < 0.5:
+            tl = tl + Intercept()
+        tl.compile(X)
+        out.append(termgen.Program(tl, X, X[:1].copy(), termgen.encode_terms(tl),
+                                   dict(n_terms=len(tl), kinds=[t._name for t in tl], m_features=5, tensor_sizes=[len(t._terms) for t in tl if t.istensor], twins=True)))
+    return out
 
 
 def run(ctx):
